@@ -113,7 +113,7 @@ func runS1(c *vkit.Ctx, sc s1Case) {
 	}()
 	if pan != nil {
 		c.Violation("s1:panic", fmt.Sprintf("%s: orchestrator panicked: %v", caseName, pan),
-			map[string]any{"case": caseName, "template": sc.tmpl.text(), "panic": fmt.Sprint(pan)})
+			map[string]any{"stage": 1, "case_index": sc.idx, "case": caseName, "template": sc.tmpl.text(), "panic": fmt.Sprint(pan)})
 		return
 	}
 	judgeS1(c, sc, caseName, plan, rec, mf)
@@ -125,7 +125,14 @@ func runS1(c *vkit.Ctx, sc s1Case) {
 	// StartOrchestrator hands over ListBufferIDs. Every id must be re-attached to the key set that produced it: the
 	// pipeline started for id X must afterwards receive exactly the records of X's tuple, before any record arrives.
 	idOf := map[string]tuple{} // buffer id -> creating tuple in generation 1 (only unambiguous ones)
+	idUsers := map[string]int{}
 	for _, p := range rec.pipelines {
+		idUsers[p.bufferIDAt0]++
+	}
+	for _, p := range rec.pipelines {
+		if idUsers[p.bufferIDAt0] > 1 {
+			continue // an id two pipelines share identifies neither (reported as shared-buffer-id)
+		}
 		seen := map[string]tuple{}
 		for _, o := range p.records {
 			if o.msgOK {
@@ -156,7 +163,7 @@ func runS1(c *vkit.Ctx, sc s1Case) {
 	}()
 	if pan != nil {
 		c.Violation("s1:panic-gen2", fmt.Sprintf("%s: second-generation orchestrator panicked: %v", caseName, pan),
-			map[string]any{"case": caseName, "template": sc.tmpl.text(), "ids": ids, "panic": fmt.Sprint(pan)})
+			map[string]any{"stage": 1, "case_index": sc.idx, "case": caseName, "template": sc.tmpl.text(), "ids": ids, "panic": fmt.Sprint(pan)})
 		return
 	}
 	atInit := map[string]bool{}
@@ -169,20 +176,20 @@ func runS1(c *vkit.Ctx, sc s1Case) {
 		if !atInit[id] {
 			c.Violation("s1:not-reattached:"+t.traitClass(),
 				fmt.Sprintf("buffer id %q was produced by key tuple %s, but a new orchestrator given that id (as recovery does) starts no pipeline with that id: its queued chunks stay unconsumed until a record with that tuple happens to arrive",
-					id, t), map[string]any{"case": caseName, "n": sc.n, "tuple": t, "tuple_hex": t.id(), "buffer_id": id})
+					id, t), map[string]any{"stage": 1, "case_index": sc.idx, "case": caseName, "key_fields": sc.n, "tuple": t, "tuple_hex": t.id(), "buffer_id": id})
 		}
 	}
-	// and the re-created pipelines must be the ones the tuples are routed to afterwards
-	for _, p := range rec2.pipelines {
+	// and the pipelines re-created at start-up must be the ones the tuples are routed to afterwards
+	for pi, p := range rec2.pipelines {
 		want, known := idOf[p.bufferIDAt0]
-		if !known {
+		if !known || pi >= len(startedAtInit) {
 			continue
 		}
 		for _, o := range p.records {
 			if o.msgOK && o.fromMsg.id() != want.id() {
 				c.Violation("s1:reattached-to-wrong-tuple",
 					fmt.Sprintf("pipeline re-created for buffer id %q (tuple %s in the first generation) received a record of tuple %s", p.bufferIDAt0, want, o.fromMsg),
-					map[string]any{"case": caseName, "buffer_id": p.bufferIDAt0, "first_generation_tuple": want, "record_tuple": o.fromMsg})
+					map[string]any{"stage": 1, "case_index": sc.idx, "case": caseName, "buffer_id": p.bufferIDAt0, "first_generation_tuple": want, "record_tuple": o.fromMsg})
 				break
 			}
 		}
@@ -237,7 +244,7 @@ func judgeS1(c *vkit.Ctx, sc s1Case, caseName string, plan []planned, rec *recor
 		}
 	}
 	wit := func(extra map[string]any) map[string]any {
-		m := map[string]any{"stage": 1, "case": caseName, "key_fields": sc.n, "template": sc.tmpl.text(), "order": sc.order, "sinks": sc.nSinks}
+		m := map[string]any{"stage": 1, "case_index": sc.idx, "case": caseName, "key_fields": sc.n, "template": sc.tmpl.text(), "order": sc.order, "sinks": sc.nSinks}
 		for k, v := range extra {
 			m[k] = v
 		}
